@@ -133,6 +133,49 @@ def typed_lit(e):
     return {"k": "cast", "t": e["ty"], "e": e, "ty": e["ty"]}
 
 
+def anchored(e):
+    """is the type of e fixed by e itself (a variable, a cast, a boolean operator), so that the
+    analyzer cannot default its literals to i64 / f64?"""
+    k = e["k"]
+    if k in ("var", "cast", "cmp", "and", "or", "not"):
+        return True
+    if k in ("paren", "neg"):
+        return anchored(e["e"])
+    if k in ("pow", "arith"):
+        return anchored(e["a"]) or anchored(e["b"])
+    return False
+
+
+def lits_of(e, acc):
+    k = e["k"]
+    if k in ("lit", "litf"):
+        acc.append(e)
+    elif k in ("paren", "neg"):
+        lits_of(e["e"], acc)
+    elif k in ("pow", "arith"):
+        lits_of(e["a"], acc)
+        lits_of(e["b"], acc)
+    return acc
+
+
+def anchor(e):
+    """for positions where nothing else fixes the type: an unanchored literal-only expression is
+    typed i64 (integer literals) / f64 (float literals) by the analyzer; if e is meant to have
+    another type, fix it with an explicit cast on its first literal"""
+    if anchored(e):
+        return e
+    ls = lits_of(e, [])
+    if e["ty"] == "i64" and all(l["k"] == "lit" for l in ls):
+        return e
+    if e["ty"] == "f64" and all(l["k"] == "litf" and "." in l["text"] for l in ls):
+        return e
+    lit = ls[0]
+    inner = dict(lit)
+    lit.clear()
+    lit.update(typed_lit(inner))
+    return e
+
+
 def first_leaf_hint_positions(e, hint, out):
     """mirror of the compiler's hint threading (Compile.cexpr / Guard.hint_ok): collect
     (literal node, hint) pairs where a hint different from the literal's type arrives"""
@@ -222,7 +265,7 @@ class Gen:
                 a = paren(a)
             return {"k": "neg", "e": fit(a, 2, rng), "ty": t}
         if k == "not":
-            a = self.expr("u8", depth - 1, scope)
+            a = anchor(self.expr("u8", depth - 1, scope))
             if a["k"] == "pow":
                 a = paren(a)
             return {"k": "not", "e": fit(a, 2, rng), "ty": "u8"}
@@ -239,11 +282,13 @@ class Gen:
             t2 = wchoice(rng, TYPE_W)
             a = self.expr(t2, depth - 1, scope)
             b = self.expr(t2, depth - 1, scope)
+            if not anchored(b):
+                a = anchor(a)
             op = rng.choice(["==", "!=", "<", ">", "<=", ">="])
             return {"k": "cmp", "op": op, "a": fit(a, 4, rng), "b": fit(b, 4, rng), "ty": "u8"}
         if k in ("and", "or"):
-            a = self.expr("u8", depth - 1, scope)
-            b = self.expr("u8", depth - 1, scope)
+            a = anchor(self.expr("u8", depth - 1, scope))
+            b = anchor(self.expr("u8", depth - 1, scope))
             return {"k": k, "a": fit(a, 5, rng, also=k), "b": fit(b, 5, rng), "ty": "u8"}
         # cast
         t2 = wchoice(rng, TYPE_W)
@@ -264,7 +309,7 @@ class Gen:
             t = rng.choice(["i64", "u64"])
         else:
             t = rng.choice(["i32", "u32", "i8", "u16"])
-        return self.top_expr(t, depth, scope, None)
+        return anchor(self.top_expr(t, depth, scope, None))
 
     def block(self, ret, depth, scope, nest, must_return):
         """returns (stmts, scope_after)"""
@@ -650,37 +695,60 @@ def histogram(case, r):
     return ks
 
 
-def explain(case, r):
-    """per failing item of the full-strength monitor, the list of known-divergence ids (Coq)"""
-    t = to_coq(case, r)
-    out = coq_print(PID, COQ_IMPORTS, "Definition E := Eval vm_compute in explain (%s).\nPrint E." % t)
-    s = out.replace("\n", " ")
-    i = s.find("E = ")
-    if i < 0:
-        raise ValueError("cannot evaluate explain: " + out[-800:])
-    body = s[i + 4:s.find(" : list", i)]
-    items = []
-    depth = 0
-    cur = ""
+_explain_cache = {}
+
+
+def parse_nested(body):
+    """parse a printed Coq list (list (list N)) / list (list (list N)) into python lists"""
+    body = body.replace("%N", "").replace("%Z", "").replace("%nat", "")
+    stack = [[]]
+    num = ""
     for ch in body:
         if ch == "[":
-            depth += 1
-            if depth == 2:
-                cur = ""
+            stack.append([])
         elif ch == "]":
-            if depth == 2:
-                items.append([int(x.replace("%N", "").strip()) for x in cur.split(";") if x.strip()])
-            depth -= 1
-        elif depth == 2:
-            cur += ch
-    return items
+            if num.strip():
+                stack[-1].append(int(num))
+            num = ""
+            top = stack.pop()
+            stack[-1].append(top)
+        elif ch == ";":
+            if num.strip():
+                stack[-1].append(int(num))
+            num = ""
+        else:
+            num += ch
+    return stack[0][0] if stack[0] else []
+
+
+def explain_batch(pairs):
+    """per case: for every failing item of the full-strength monitor, the ids of the known
+    divergences whose signature it carries (evaluated in Coq: Mon_C19.explain)"""
+    todo = [(c, r) for c, r in pairs if vlib.chash([c["src"], c["args"]]) not in _explain_cache]
+    for k in range(0, len(todo), 150):
+        chunk = todo[k:k + 150]
+        terms = [to_coq(c, r) for c, r in chunk]
+        out = coq_print(PID + "x%d" % os.getpid(), COQ_IMPORTS,
+                        "Definition E := Eval vm_compute in map explain [%s].\nPrint E." % "; ".join(terms),
+                        timeout=900)
+        s = out.replace("\n", " ")
+        i = s.find("E = ")
+        j = s.rfind(" : list")
+        if i < 0 or j < 0:
+            raise ValueError("cannot evaluate explain: " + out[-800:])
+        vals = parse_nested(s[i + 4:j])
+        if len(vals) != len(chunk):
+            raise ValueError("explain: %d results for %d cases" % (len(vals), len(chunk)))
+        for (c, r), v in zip(chunk, vals):
+            _explain_cache[vlib.chash([c["src"], c["args"]])] = v
+    return [_explain_cache[vlib.chash([c["src"], c["args"]])] for c, r in pairs]
 
 
 def tags(case, r):
     if case.get("kind") != "prog" or r is None or r.get("panic"):
         return set()
     try:
-        items = explain(case, r)
+        items = explain_batch([(case, r)])[0]
     except Exception:  # noqa
         return set()
     if not items or any(not it for it in items):
@@ -716,45 +784,49 @@ def model_dump(case, r):
 
 def extra(ctx):
     """full-strength monitor on everything evaluated: every rejection must carry the signature of a
-    known divergence (otherwise it was already reported by the main phase); report one
-    representative per signature through the known-findings protocol."""
+    known divergence (otherwise it was already reported by the main phase); one representative
+    per signature goes through the known-findings protocol."""
     import check
     items = list(_seen.values())
     if not items:
         return
-    terms = []
-    for case, r in items:
-        terms.append(to_coq(case, r))
-    M, VF, errs = vlib.coq_eval_cases(PID, COQ_IMPORTS, CASE_TYPE, terms, shard=SHARD,
+    terms = [to_coq(case, r) for case, r in items]
+    G, VF, errs = vlib.coq_eval_cases(PID, COQ_IMPORTS, CASE_TYPE, terms, shard=SHARD,
                                       mism="violations", viol="violations_full")
     if errs:
         ctx.notes.append("full-strength pass could not be evaluated: %s" % errs[0][:200])
         return
-    guarded = set(M)
+    guarded = set(G)
     ctx.extra_cov["full_monitor_rejections"] = len(VF)
-    by_tag = {}
-    unexplained = []
-    for i in VF:
+    todo = [i for i in VF if i not in guarded]
+    try:
+        ex = explain_batch([items[i] for i in todo])
+    except Exception as exn:  # noqa
+        ctx.notes.append("explain failed: %r" % exn)
+        return
+    by_tag, counts, unexplained = {}, {}, []
+    for i, its in zip(todo, ex):
         case, r = items[i]
-        if i in guarded:
-            continue      # reported by the main phase
-        tg = tags(case, r)
-        if not tg:
+        if not its or any(not it for it in its):
             unexplained.append(i)
             continue
+        tg = set()
+        for it in its:
+            tg |= {KNOWN_TAGS[x] for x in it}
         for t in tg:
+            counts[t] = counts.get(t, 0) + 1
             cur = by_tag.get(t)
-            if cur is None or len(json.dumps(items[cur][0])) > len(json.dumps(case)):
+            if cur is None or len(items[cur][0]["src"]) > len(case["src"]):
                 by_tag[t] = i
-        if len(by_tag) >= len(KNOWN_TAGS) and len(VF) > 400:
-            pass
-    ctx.extra_cov["known_divergence_cases_by_tag"] = {t: 1 for t in by_tag}
+    ctx.extra_cov["cases_carrying_known_divergence"] = counts
+    ctx.extra_cov["cases_outside_every_signature"] = len(items) - len(VF)
     for i in unexplained[:3]:
         case, r = items[i]
         check.report_case_violation(ctx, case, r, "full-strength monitor rejects the implementation's behaviour")
     for t, i in sorted(by_tag.items()):
         case, r = items[i]
-        check.report_case_violation(ctx, case, r, "known divergence " + t)
+        one = dict(case)
+        check.report_case_violation(ctx, one, r, "known divergence " + t)
 
 
 RULE = ("typed-by-construction Arc functions (1-3 parameters over i8..u64,f32,f64; 0-4 statements + return; "
